@@ -112,14 +112,18 @@ class FortranBackend(BaseBackend):
     # variables they are combined with; in a double precision build they have to carry a `d` exponent
     _real_literal = re.compile(r'(?<![\w.])(\d+\.\d*|\.\d+)(?:[eE]([-+]?\d+))?(?![\w.])|(?<![\w.])(\d+)[eE]([-+]?\d+)(?![\w.])')
 
+    def _double_literals(self, text: str) -> str:
+        if '64' not in str(self._float_precision):
+            return text
+
+        def _dbl(m):
+            if m.group(1) is not None:
+                return f"{m.group(1)}d{m.group(2) or '0'}"
+            return f"{m.group(3)}d{m.group(4)}"
+        return self._real_literal.sub(_dbl, text)
+
     def _format_assignment(self, lhs: str, rhs: str, indexed: bool) -> str:
-        if '64' in str(self._float_precision):
-            def _dbl(m):
-                if m.group(1) is not None:
-                    return f"{m.group(1)}d{m.group(2) or '0'}"
-                return f"{m.group(3)}d{m.group(4)}"
-            rhs = self._real_literal.sub(_dbl, rhs)
-        return super()._format_assignment(lhs, rhs, indexed)
+        return super()._format_assignment(lhs, self._double_literals(rhs), indexed)
 
     def create_index_str(self, idx: Union[str, int, tuple], separator: str = ',', apply: bool = True,
                          **kwargs) -> Tuple[str, dict]:
@@ -569,10 +573,10 @@ class FortranBackend(BaseBackend):
                     "of your network (e.g. remove extrinsic inputs) such that no "
                     "vectorized model parameters exist."
                 )
-            self.add_code_line(f"args({idx}) = {self._var_to_str(p)}  ! {p.name}")
+            self.add_code_line(f"args({idx}) = {self._double_literals(self._var_to_str(p))}  ! {p.name}")
         for i, var in enumerate(state_vars):
             v = self._var_declaration_info[var]
-            self.add_code_line(f"y({i+1}) = {self._var_to_str(v)}  ! {v.name}")
+            self.add_code_line(f"y({i+1}) = {self._double_literals(self._var_to_str(v))}  ! {v.name}")
         self.add_linebreak()
         self.add_code_line("end subroutine stpnt")
         self.add_linebreak()
